@@ -651,6 +651,11 @@ pub(crate) fn parse_matcher<'data>(
                 break;
             }
 
+            if input.is_empty() {
+                // The extern block was never closed.
+                '}'.parse_next(input)?;
+            }
+
             // Symbols at the end of `extern` blocks may omit semicolons
             let expect_semicolon = {
                 let remaining = &**input;
@@ -687,9 +692,9 @@ pub(crate) fn parse_matcher<'data>(
         if input.contains(&b'}') {
             take_until(1.., b'}').parse_next(input)?
         } else {
-            // TODO: Clippy bug
-            #[allow(clippy::needless_borrow)]
-            &input
+            // The token is the rest of the input. Consume it, so that callers that loop make
+            // progress.
+            winnow::token::rest.parse_next(input)?
         }
     } else {
         take_until(1.., b';').parse_next(input)?
